@@ -178,7 +178,9 @@ def main():
         run.notes.setdefault("configuration", {})[lang] = {"keywords": len(st.kw), "pattern_keys": {k: [p.pattern for p in v] for k, v in st.pat.items()},
                                                            "encoding_rules": {k: [p.pattern for p in v] for k, v in st.rules.items()}, "prefix": st.pre, "suffix": st.suf,
                                                            "stropping_failure_handler": getattr(st.sh, "__qualname__", None), "encoding_failure_handler": getattr(st.eh, "__qualname__", None)}
-    run.trust("z3 4.8.12 / z3 5.1.0 / cvc5 1.0.3 (string + regular-language theories)", "CPython's regex parser for the pattern texts (vk/pyre)", "E-PY semantics (vk/epy.py)",
+    from props import lean_glue
+    lean_glue.lemmas(run, "Glue.lean", ["L4_factor_closure", "L4_concat_closure"], "a factor of a word over an alphabet A is a word over A (the induction the SMT solvers do not do; used by the re.sub / re.match contracts)")
+    run.trust("lean 4 (lemma L4 factor closure, lean/Glue.lean, checked on every run)", "z3 4.8.12 / z3 5.1.0 / cvc5 1.0.3 (string + regular-language theories)", "CPython's regex parser for the pattern texts (vk/pyre)", "E-PY semantics (vk/epy.py)",
               "TokenEncoder.__init__ and the language configuration loader (run natively to obtain the configuration constants)")
     run.assume("identifier syntax: [A-Za-z_][A-Za-z0-9_]* for C, C++ and Python (ASCII identifiers); 'reserved' = the configured keyword list (py: + keyword.kwlist + dir(builtins)) and the configured patterns of 'all' and the requested type",
                "SMT strings range over code points <= 0x2FFFF (Python: 0x10FFFF)",
